@@ -26,6 +26,31 @@ def hasPositiveCost (cost : Rat) : Bool := (decide (cost > (0 : Rat)))
 
 def unaffordable (available cost : Rat) : Bool := (decide (available < cost))
 
+/-- comparisons with an optional number.  `…Opt`: `none` is Python's `None` (the code never compares with it: the test
+    `x is None or …` comes first), so every comparison with it is false; `…Inf`: `none` is `float("inf")`. -/
+def ltOpt (a : Rat) : Option Rat → Bool
+  | none => false
+  | some b => decide (a < b)
+def gtOpt (a : Rat) : Option Rat → Bool
+  | none => false
+  | some b => decide (a > b)
+def eqOpt (a : Rat) : Option Rat → Bool
+  | none => false
+  | some b => decide (a = b)
+def ltInf (a : Rat) : Option Rat → Bool
+  | none => true
+  | some b => decide (a < b)
+def gtInf (a : Rat) : Option Rat → Bool
+  | none => false
+  | some b => decide (a > b)
+def eqInf (a : Rat) : Option Rat → Bool
+  | none => false
+  | some b => decide (a = b)
+
+def sweepLoop (cost : Rat) (p : Nat) : Rat → Rat → Rat → (Option Rat) → (List Nat) → List (Rat × Rat × Rat) → (Rat × Rat × Rat × (Option Rat) × (List Nat))
+  | contribution, denominator, aff, best, tied, [] => (contribution, denominator, aff, best, tied)
+  | contribution, denominator, aff, best, tied, x :: xs => (if (decide ((((cost - contribution) / denominator) * x.2.1) ≤ x.1)) then (if (ltInf ((cost - contribution) / denominator) best) then (contribution, denominator, ((cost - contribution) / denominator), (some ((cost - contribution) / denominator)), [p]) else (if (eqInf ((cost - contribution) / denominator) best) then (contribution, denominator, ((cost - contribution) / denominator), best, (tied ++ [p])) else (contribution, denominator, ((cost - contribution) / denominator), best, tied))) else (sweepLoop cost p ((contribution + (x.2.2 * x.1))) ((denominator - (x.2.2 * x.2.1))) aff best tied xs))
+
 def affordFactor (cost contribution denominator : Rat) : Rat := ((cost - contribution) / denominator)
 
 def canPay (factor u b : Rat) : Bool := (decide ((factor * u) ≤ b))
